@@ -588,7 +588,12 @@ class Resolver:
         ts = []
         for r in walk_no_nested(fn.node):
             if isinstance(r, ast.Return) and r.value is not None:
-                t = self.type_of(r.value, fn, env)
+                t = self.strip_opt(self.type_of(r.value, fn, env))
+                if t[0] in ("dictget", "funcs") and not ts:
+                    # the selector hands back an entry of a dispatch table / a package function: that is what gets called
+                    rest = [x for x in walk_no_nested(fn.node) if isinstance(x, ast.Return) and x.value is not None and x is not r]
+                    if all(self.strip_opt(self.type_of(x.value, fn, env)) == t for x in rest):
+                        return t
                 if t[0] != "method":
                     return None
                 ts.append(t)
